@@ -24,7 +24,7 @@ def gen_settings(rng, fault_mode):
     if rng.random() < 0.5:
         s['spg_use_nonmonotone'] = bool(rng.random() < 0.5)
     if rng.random() < 0.5:
-        s['tr_size'] = float(10.0 ** rng.uniform(-2, 2))
+        s['tr_size'] = float(10.0 ** (rng.uniform(-2, 2) if rng.random() < 0.8 else rng.uniform(-7, -2)))
     if rng.random() < 0.5:
         s['tol'] = float(10.0 ** rng.uniform(-9, -5))
     if rng.random() < 0.4:
